@@ -209,7 +209,7 @@ def check_cartesian_volume(ctx):
     com = [c for c in fv.calls() if (fv.callee(c) or "") == "scipy.ndimage.center_of_mass"]
     okc = len(com) == 1 and [U(a) for a in com[0].args[:2]] == ["mask.data", "labels"] and kwarg(com[0], "index") is not None and U(kwarg(com[0], "index")) == "indices"
     sm = [c for c in fv.calls() if (fv.callee(c) or "") in ("scipy.ndimage.sum", "scipy.ndimage.sum_labels")]
-    oks = len(sm) == 1 and kwarg(sm[0], "index") is not None and U(kwarg(sm[0], "index")) == "indices"
+    oks = len(sm) == 1 and kwarg(sm[0], "index") is not None and U(kwarg(sm[0], "index")) == "indices" and [U(a) for a in sm[0].args[:2]] == ["mask.data", "labels"]
     idx = [s for s in fv.statements() if isinstance(s, (ast.Assign, ast.AnnAssign)) and U(s.targets[0] if isinstance(s, ast.Assign) else s.target) == "indices"]
     oki = bool(idx) and U(idx[0].value) == "range(1, num_labels + 1)"
     ctx.decide(okc and oks and oki, "DIM", site + ":labels", (fi, com[0]) if com else fi, "positions and volumes are measured for the same labels 1…num_labels",
